@@ -267,6 +267,27 @@ def call_entry(world: World, entry: str, a: dict, stream):
     raise ValueError(entry)
 
 
+def born_rule_check(world: World):
+    """V4: for schedules made of a state, gates and a POVM the requested distribution is the Born rule
+    p_x = (e_x | G_n ... G_1 | rho), computed here from the raw arrays (vec, hs, vecs) of the operations, independently of
+    quara's composition code.  Returns a message for the first schedule whose calc_prob_dist disagrees, else None."""
+    e = world.pool["experiment"]
+    exp = world.exp
+    for si, sched in enumerate(e["schedules"]):
+        kinds = [it[0] for it in sched]
+        if kinds[0] != "state" or kinds[-1] != "povm" or any(k != "gate" for k in kinds[1:-1]):
+            continue
+        v = np.array(exp.states[sched[0][1]].vec, dtype=np.complex128)
+        for it in sched[1:-1]:
+            v = np.array(exp.gates[it[1]].hs) @ v
+        want = np.real(np.array([np.vdot(np.array(ev), v) for ev in exp.povms[sched[-1][1]].vecs]))
+        got = np.array(exp.calc_prob_dist(si), dtype=np.float64)
+        # MultinomialDistribution cleans entries below 1e-8 and renormalises: compare above that scale
+        if got.shape != want.shape or np.max(np.abs(got - want)) > 1e-7:
+            return f"schedule {si} {sched}: calc_prob_dist gives {got.tolist()}, the Born rule from the raw arrays gives {want.tolist()}"
+    return None
+
+
 def expected_shape(world: World, entry: str, a: dict):
     """what the output must look like: list of ("data", p, n) / ("empi", p, n) / ("counts", p, num) leaves in output order."""
     V = world.vectors
@@ -522,13 +543,13 @@ def gen_pool(rng):
     sched_opts = []
     e_states = rng.sample(STATE_NAMES, rng.randint(1, 3))
     e_povms = rng.sample(POVM_NAMES, rng.randint(1, 3))
-    e_gates = rng.sample(GATE_NAMES, rng.randint(0, 2))
+    e_gates = rng.sample(GATE_NAMES, rng.randint(0, 3))
     e_mps = rng.sample(MPROCESS_NAMES, rng.randint(0, 1))
     ns = rng.randint(1, 4)
     for _ in range(ns):
         s = [["state", rng.randrange(len(e_states))]]
-        for _ in range(rng.randint(0, 2)):
-            if e_gates and rng.random() < 0.6:
+        for _ in range(rng.choice([0, 1, 2, 2, 3])):
+            if e_gates and rng.random() < 0.7:
                 s.append(["gate", rng.randrange(len(e_gates))])
             elif e_mps and rng.random() < 0.5:
                 s.append(["mprocess", rng.randrange(len(e_mps))])
@@ -775,7 +796,7 @@ def generate_record(seed, tier, opts):
 
 
 def gen_malformed(rng, pool):
-    kind = rng.choice(["non_increasing", "too_long", "too_long_middle", "too_long_first", "equal_sizes", "out_of_range", "out_of_range_late", "negative_measurement_num", "neg_prob", "bad_sum", "len_mismatch", "exp_neg_n", "exp_nonint_n"])
+    kind = rng.choice(["non_increasing", "too_long", "too_long_middle", "too_long_first", "equal_sizes", "out_of_range", "out_of_range_late", "nan_prob", "nan_prob_exp", "inf_prob", "negative_measurement_num", "neg_prob", "bad_sum", "len_mismatch", "exp_neg_n", "exp_nonint_n"])
     return {"op": "malformed", "kind": kind, "salt": rng.randrange(1000)}
 
 
@@ -948,6 +969,11 @@ class Run:
     def do_call(self, idx, entry, a, spec, crafted=None):
         sig = {"op": "call", "entry": entry, "stream": spec["k"] if crafted is None else "crafted"}
         fresh = self.fresh_world()
+        if entry.startswith("exp_"):
+            self.bump("oracle_checks", "V4_born_rule")
+            msg = born_rule_check(fresh)
+            if msg:
+                raise Violation("V4_requested_distribution", msg, {"step": idx, "entry": entry}, {"op": "call", "entry": entry, "how": "born_rule"})
         shape = expected_shape(fresh, entry, a)
         np0, py0 = _np_state(), pyrandom.getstate()
         np0_d, py0_d = _np_state_digest(np0), _py_digest()
@@ -1358,6 +1384,12 @@ class Run:
                 return dg.calc_empi_dist_sequence(2, data[:7] + [2] + data[8:], [10])
             if kind == "negative_measurement_num":
                 return dg.calc_empi_dist_sequence(-1, data, [10])
+            if kind == "nan_prob":
+                return dg.generate_data_from_prob_dist(np.array([float("nan"), 0.5]), 10, 1)
+            if kind == "inf_prob":
+                return dg.generate_data_from_prob_dist(np.array([float("inf"), 0.5]), 10, 1)
+            if kind == "nan_prob_exp":
+                return MultinomialDistribution(np.array([float("nan"), float("nan")]))
             if kind == "neg_prob":
                 return dg.generate_data_from_prob_dist(np.array([1.5, -0.5]), 10, 1)
             if kind == "bad_sum":
